@@ -30,8 +30,8 @@ const (
 
 func StartPresign(c *config.Config, signers []party.ID, message []byte, pl *pool.Pool) protocol.StartFunc {
 	return func(sessionID []byte) (round.Session, error) {
-		if c == nil {
-			return nil, errors.New("presign: config is nil")
+		if err := c.Validate(); err != nil {
+			return nil, fmt.Errorf("presign: %w", err)
 		}
 
 		info := round.Info{
@@ -95,8 +95,8 @@ func StartPresign(c *config.Config, signers []party.ID, message []byte, pl *pool
 
 func StartPresignOnline(c *config.Config, preSignature *ecdsa.PreSignature, message []byte, pl *pool.Pool) protocol.StartFunc {
 	return func(sessionID []byte) (round.Session, error) {
-		if c == nil || preSignature == nil {
-			return nil, errors.New("presign: config or preSignature is nil")
+		if err := c.Validate(); err != nil {
+			return nil, fmt.Errorf("presign: %w", err)
 		}
 		// this could be used to indicate a pre-signature later on
 		if len(message) == 0 {
